@@ -160,3 +160,24 @@ def need(d, key, where='document'):
             where, key, list(d) if isinstance(d, dict) else type(d).__name__),
             sig='shape:missing:%s' % key)
     return d[key]
+
+
+def reset_caches():
+    """Puts the decoder's module-level state back to what a fresh interpreter
+    has after import (used at the top of fuzz iterations and in forked CLI
+    children so that they behave like a new process)."""
+    import importlib
+    m = mods()
+    for modname, attr in (('parse_user_data', 'userDataParsers'), ('src', 'calloutParsers'),
+                          ('src', 'srcParsers')):
+        d = getattr(m[modname], attr, None)
+        if isinstance(d, dict):
+            d.clear()
+    osrc = sys.modules.get('srcparsers.osrc.osrc')
+    if osrc is not None and isinstance(getattr(osrc, 'osrcParsers', None), dict):
+        osrc.osrcParsers.clear()
+    ci = m['comp_id']
+    if isinstance(getattr(ci, 'componentIDs', None), dict):
+        ci.componentIDs.clear()
+    if hasattr(ci, 'attemptedToParseCompIDs'):
+        ci.attemptedToParseCompIDs = False
